@@ -21,7 +21,10 @@ DEFAULT_INDENT = "    "
 
 
 def split_paragraphs(text: str) -> list[str]:
-    return [p.strip() for p in re.split(r"\n{2,}", text)]
+    # Whitespace-only stretches between blank lines are not paragraphs: as empty paragraphs they
+    # would come out as extra blank lines that the next run reads as one paragraph break.
+    paragraphs = [p.strip() for p in re.split(r"\n{2,}", text)]
+    return [p for p in paragraphs if p]
 
 
 class Wrap(Enum):
